@@ -283,3 +283,6 @@ def run(ctx: Ctx, rep: Report, tier: str):
                     rep.violation("C07.R11", "%s|truthiness" % short(f7.qname), ctx.line(f7, n7), "`self.cursor` is tested for truthiness: a legitimate falsy cursor is thrown away after a restart")
             if isinstance(n7, ast.Compare) and len(n7.ops) == 1 and pat.match("self.cursor", n7.left) is not None:
                 rep.check("C07.R11", "%s|%s" % (short(f7.qname), ast.unparse(n7)), ctx.line(f7, n7), isinstance(n7.ops[0], (ast.Is, ast.IsNot, ast.Eq, ast.NotEq)), "identity / equality test", "cursor compared by order")
+    from rules.C08 import C08 as _C08c
+    from rules.common import alias as _alias_c
+    _alias_c(rep, ["C08.R5"], "C07.R12", "a failed storage write is retried by the next commit: the dirty set is emptied only after the loop over it completed (C08.R5)", 1, lambda: _C08c(ctx, rep).r5(), keep=lambda i: i.key.startswith("storage_commit|"))
